@@ -166,6 +166,9 @@ pub trait Service<S: Spawner<Self>>: Actor + Default {
                 let handle = S::spawn_actor(event_loop);
                 handle.detach();
                 registry.insert(key, Box::new(addr.clone()));
+                // the ping must not run under the registry lock: the service's `started()` may
+                // itself look up another service
+                drop(registry);
                 debug_assert!(addr.ping().await.is_ok(), "service failed ping");
                 addr
             }
@@ -200,6 +203,9 @@ pub(crate) trait SpawnableService<S: Spawner<Self>>: Service {
                 let handle = S::spawn_actor(event_loop);
                 handle.detach();
                 registry.insert(key, Box::new(addr.clone()));
+                // the ping must not run under the registry lock: the service's `started()` may
+                // itself look up another service
+                drop(registry);
                 debug_assert!(addr.ping().await.is_ok(), "service failed ping");
                 addr
             }
